@@ -252,6 +252,18 @@ Definition pick_check (ls : list (list table)) (c : compaction) : N :=
            end
   end end.
 
+(* bookkeeping checks on what the implementation reports about a compaction's outputs *)
+Definition all_ids (ls : list (list table)) : list N := map t_id (concat ls).
+Fixpoint ids_nodup (l : list N) : bool :=
+  match l with [] => true | x :: r => negb (existsb (N.eqb x) r) && ids_nodup r end.
+Definition layout_ok (ls : list (list table)) (c : compaction) (out : src) : bool :=
+  (fold_left (fun a ic => a + N.to_nat (snd ic))%nat (c_layout c) O =? length out)%nat
+  && forallb (fun ic => negb (snd ic =? 0) && negb (existsb (N.eqb (fst ic)) (all_ids ls))) (c_layout c)
+  && ids_nodup (map fst (c_layout c)).
+Definition order_ok (order : list N) (nl : list table) : bool :=
+  (length order =? length nl)%nat && forallb (fun t => existsb (N.eqb (t_id t)) order) nl
+  && ids_nodup order.
+
 Inductive result := Ok (s : sys) | Bad (code : N).
 
 (* one label: Bad = the model disagrees with the observation carried by the label
@@ -315,12 +327,40 @@ Definition step (s : sys) (o : op) : result :=
   | MaxVersion v => if max_version (s_db s) =? v then Ok s else Bad 1
   end.
 
+(* the bookkeeping conditions the tree-level theorems assume about what the implementation
+   reports (fresh table ids, output layout covering the output exactly, the observed order a
+   permutation of the level); checked on every label by the correspondence *)
+Definition step_strict (s : sys) (o : op) : result :=
+  match o with
+  | Flush id =>
+      if negb (id =? 0) && existsb (N.eqb id) (all_ids (l_levels (s_db s))) then Bad 142 else step s o
+  | Compact c out =>
+      let ls := l_levels (s_db s) in
+      let res := compaction_output ls c in
+      if negb (pick_check ls c =? 0) then step s o
+      else if negb (layout_ok ls c res) then Bad 140
+      else if negb (order_ok (c_order c)
+                     (let nl := drop_tables (c_bot c) (nth (c_next c) ls []) ++ split_counts res (c_layout c) in
+                      if (c_this c =? c_next c)%nat then drop_tables (c_top c) nl else nl)) then Bad 141
+      else step s o
+  | _ => step s o
+  end.
+
 (* replay: index of the first disagreeing label, or None when the whole history is accepted *)
 Fixpoint exec (s : sys) (ops : list op) (i : N) : option (N * N) * sys :=
   match ops with
   | [] => (None, s)
   | o :: r => match step s o with
               | Ok s' => exec s' r (i + 1)
+              | Bad code => (Some (i, code), s)
+              end
+  end.
+
+Fixpoint exec_strict (s : sys) (ops : list op) (i : N) : option (N * N) * sys :=
+  match ops with
+  | [] => (None, s)
+  | o :: r => match step_strict s o with
+              | Ok s' => exec_strict s' r (i + 1)
               | Bad code => (Some (i, code), s)
               end
   end.
